@@ -514,6 +514,53 @@ func genRT(out *vc.Out, r *vc.Rand, thorough bool) {
 			emitRT(out, pk, randSizes(r, n), r.Intn(4) == 0, "random")
 		}
 	}
+	// (3a) body-length sweep: every wire-body length 0..4300 (plain), windows around every power of two
+	// and multiple of 1024 up to 128 KiB, and every compressed-body length the pattern reaches — a writer
+	// or reader that treats one length window differently (coalescing, pooled buffers, MSS-sized paths)
+	// shows up here; each case is followed by a trailer packet so that misalignment is visible
+	sweep := func(n int, comp bool) {
+		body := make([]byte, n)
+		for i := range body {
+			body[i] = byte(i*7 + n)
+		}
+		if comp { // barely compressible prefix so that the gzip output length varies with n
+			for i := range body {
+				if i%3 == 0 {
+					body[i] = 0
+				}
+			}
+		}
+		pk := []pkt{{0x22, comp, body}, {0x20, false, []byte("trailer")}}
+		sz := []int{3, 1500}
+		if n%2 == 0 {
+			sz = randSizes(r, wireLen(pk))
+		}
+		emitRT(out, pk, sz, false, "length-sweep")
+	}
+	step := 1
+	if !thorough {
+		step = 3
+	}
+	for n := r.Intn(step); n <= 4300; n += step {
+		sweep(n, false)
+	}
+	for n := 1390; n <= 1410; n++ { // around one MSS, every length in both tiers
+		sweep(n, false)
+		sweep(n+600, true)
+	}
+	for k := 10; k <= 17; k++ {
+		for d := -5; d <= 5; d++ {
+			sweep(1<<k+d, false)
+			if thorough {
+				sweep(1<<k+d, true)
+			}
+		}
+	}
+	for m := 1; m <= 64; m++ {
+		if thorough || m%4 == 0 {
+			sweep(m*1024-4+r.Intn(8), r.Intn(4) == 0)
+		}
+	}
 	// (3b) the same writer with a rate limit: the body goes through writeRateLimitedData in pieces
 	nl := 60
 	if thorough {
